@@ -136,7 +136,8 @@ class Driver:
             os.chmod(self.actdir, 0o755)
             os.mkdir(os.path.join(self.actdir, 'services'))
             os.mkdir(os.path.join(self.actdir, 'ctl'))
-            stub = os.path.join(os.path.dirname(os.path.abspath(build)), 'harness', 'svcstub')
+            from daemon import harness_bin
+            stub = harness_bin(build, 'svcstub')
             for a in self.cfg['act']:
                 ex = {'ok': '%s %s %s' % (stub, os.path.join(self.actdir, 'ctl'), a['n']),
                       'noexec': '/nonexistent/verif-no-such-program --x',
